@@ -3,6 +3,7 @@ package main
 import (
 	"fmt"
 	"sort"
+	"strconv"
 	"strings"
 
 	hatypes "github.com/jcmoraisjr/haproxy-ingress/pkg/haproxy/types"
@@ -19,6 +20,10 @@ func init() {
 			c07ids(c, strings.Split(a[1], ","))
 		case len(a) >= 2 && a[0] == "hist":
 			c07hist(c, a[1:])
+		case len(a) == 4 && a[0] == "alloc":
+			rs, _ := strconv.Atoi(a[1])
+			re, _ := strconv.Atoi(a[2])
+			c07alloc(c, rs, re, strings.Split(a[3], ","))
 		}
 	}
 }
@@ -120,7 +125,50 @@ func c07hist(c *ctx, ops []string) {
 	c.emit("C07", "hist "+strings.Join(ops, " "), out)
 }
 
+// auth-proxy port allocation on the real hatypes.Frontend (same sub-protocol as C18's allocator cases)
+func c07alloc(c *ctx, rs, re int, ops []string) {
+	out := func() (res string) {
+		defer func() {
+			if r := recover(); r != nil {
+				res = "PANIC"
+			}
+		}()
+		r, err := c18AllocRun(rs, re, ops)
+		if err != nil {
+			return "ERROR"
+		}
+		return r
+	}()
+	c.emit("C07", fmt.Sprintf("alloc %d %d %s", rs, re, strings.Join(ops, ",")), out)
+	c.stat("alloc", 1)
+}
+
 func runC07(c *ctx) {
+	// auth-proxy ports: every op sequence (acquire target / remove except / remove by target / range change)
+	{
+		ops := []string{"q0", "q1", "q2", "q3", "k", "k0", "k1", "k0.2", "d0", "d1.2", "r1.2", "r0.0"}
+		maxLen := 3
+		if c.thorough() {
+			maxLen = 5
+		}
+		for _, rng := range [][2]int{{0, -1}, {0, 0}, {0, 1}, {0, 2}, {1, 2}, {0, 3}} {
+			var rec func(prefix []string)
+			rec = func(prefix []string) {
+				if len(prefix) > 0 {
+					c07alloc(c, rng[0], rng[1], prefix)
+				}
+				if len(prefix) == maxLen {
+					return
+				}
+				for _, o := range ops {
+					rec(append(prefix[:len(prefix):len(prefix)], o))
+				}
+			}
+			rec(nil)
+		}
+		// corpus: acquire three, drop the lowest by target, re-acquire, acquire a fourth
+		c07alloc(c, 0, 5, []string{"q0", "q1", "q2", "d0", "q0", "q3"})
+	}
 	r := gen.New(c.seed)
 	// path ids: exhaustive short sequences over a small link alphabet, then random
 	alpha := []string{"a.local|/|P", "a.local|/|E", "a.local|/app|B", "b.local|/|P", "<default>|/|B"}
